@@ -298,9 +298,16 @@ def closed_form(fn, k, seed, ns, p0, multinom, eps, dseed, nboot, log=False, nes
         if fn == 'score':
             return np.array(Godambe.score_stat(func, pts, boots_call, pc, data, list(nested), multinom=multinom, eps=e, adj_and_org=True))
         raise KeyError(fn)
-    R1 = call(eps)
-    R2 = call(2 * eps)
-    R4 = call(4 * eps)
+    # dadi is called first (whatever the verdict on well-posedness below, the calls are part of the session's history); an
+    # exception counts only if the case is then judged well-posed
+    raised = None
+    try:
+        R1 = call(eps)
+        R2 = call(2 * eps)
+        R4 = call(4 * eps)
+    except Exception as e:
+        raised = e
+        R1 = R2 = R4 = None
     for pc, orig in held:
         if not np.array_equal(np.asarray(pc), np.asarray(orig)):
             return {'ok': False, 'what': 'closed form %s: the caller\'s parameter vector was modified in place' % fn, 'p0': list(p0),
@@ -365,6 +372,9 @@ def closed_form(fn, k, seed, ns, p0, multinom, eps, dseed, nboot, log=False, nes
         # the O(eps^p) statement nor any a-posteriori bound says anything here
         return {'ok': True, 'skipped': 'pre-asymptotic (scaled cond %.3g x truncation %.3g)' % (condn, trunc),
                 'what': 'closed form ' + fn}
+    if raised is not None:
+        return {'ok': False, 'what': 'closed form %s: dadi raised %s: %s on a well-posed case' % (fn, type(raised).__name__, raised), 'fn': fn, 'k': k,
+                'multinom': multinom, 'log': log, 'eps': eps, 'p0': list(p0), 'nested': nested, 'cond': conds, 'scaled_cond': condn}
     if R1.shape != Rc.shape:
         return {'ok': False, 'what': 'closed form ' + fn, 'shape': [list(R1.shape), list(Rc.shape)]}
     ok, out = _gate(R1, R2, Rc, eps, condn, central, R4, noise)
@@ -379,7 +389,11 @@ def closed_form(fn, k, seed, ns, p0, multinom, eps, dseed, nboot, log=False, nes
         # a failure of the bound counts only if it is not a pre-asymptotic artefact: refine the step and demand
         # that the discrepancy persists (a wrong formula does not converge to the closed form; a coarse step does)
         e3 = eps / 3.0
-        Ra, Rb = call(e3), call(2 * e3)
+        try:
+            Ra, Rb = call(e3), call(2 * e3)
+        except Exception as e:
+            out.update(ok=False, what='closed form %s: dadi raised %s at the refined step' % (fn, type(e).__name__))
+            return out
         ok3, out3 = _gate(Ra, Rb, Rc, e3, condn, central, None, 9 * noise)
         out['refined'] = {'eps': e3, 'err': out3['err'], 'bound': out3['bound']}
         if ok3 or out3['err'] <= 0.5 * out['err']:
